@@ -57,7 +57,8 @@ def gen_recipe(rng, i):
     if i % 17 == 7:
         ex['no_aperture'] = True
     edits = []
-    std = [j + 1 for j, s in enumerate(spec['surfaces']) if s.get('type', 'standard') == 'standard']
+    std = [j + 1 for j, s in enumerate(spec['surfaces']) if s.get('type', 'standard') == 'standard'
+           and math.isfinite(s.get('radius', math.inf))]
     even = [j + 1 for j, s in enumerate(spec['surfaces']) if s.get('type') == 'even_asphere']
     r = rng.random()
     nops = 0 if r < 0.35 else rng.choice([1, 1, 2, 3, 5])
@@ -170,7 +171,7 @@ def build_recipe(rec, upto=None, on_step=None):
     if 'telecentric' in ex:
         o.obj_space_telecentric = ex['telecentric'][0]
         o.fields.set_telecentric(ex['telecentric'][1])
-        if o.aperture is not None:
+        if o.aperture is not None and o.aperture.ap_type not in ('EPD', 'imageFNO'):
             o.aperture.object_space_telecentric = ex['telecentric'][2]
     if ex.get('fresnel'):
         o.surface_group.set_fresnel_coatings()
@@ -350,7 +351,7 @@ def canon(x):
 # Coq rendering
 # --------------------------------------------------------------------------------------------------
 def cstr(s):
-    return '"' + ''.join(ch if 32 <= ord(ch) < 127 else '?' for ch in s).replace('"', '""') + '"'
+    return '"' + ''.join(ch if 32 <= ord(ch) < 127 else '?' for ch in s).replace('"', '""') + '"%string'
 
 
 def cfl(x):
@@ -466,7 +467,7 @@ def c_json(v, key=None):
 
 def c_cat(cat):
     """catalogue file function as observed on the implementation"""
-    body = '""'
+    body = '""%string'
     for (name, ref, rob), fn in cat.items():
         r = 'match r with None => true | Some _ => false end' if ref is None else \
             f'match r with Some s => String.eqb s {cstr(ref)} | None => false end'
